@@ -42,15 +42,15 @@ func keyStr(k atree.Value) string { return fmt.Sprintf("%T:%v", k, k) }
 // ---------- world ----------
 
 type WorldOpts struct {
-	Addr       uint64
-	MaxDepth   int
-	Wrap       bool // allow SomeValue wrappers
-	Maps       bool
-	Detach     bool // keep removed child containers alive as detached roots (C11)
-	LargeVals  bool // strings above the inline limit (StorableSlab)
-	PopChild   bool // PopIterate / SetType through child handles
-	Digester   func() atree.DigesterBuilder // one builder per map: the builder carries the map's seed
-	KeySpace   int
+	Addr      uint64
+	MaxDepth  int
+	Wrap      bool // allow SomeValue wrappers
+	Maps      bool
+	Detach    bool                         // keep removed child containers alive as detached roots (C11)
+	LargeVals bool                         // strings above the inline limit (StorableSlab)
+	PopChild  bool                         // PopIterate / SetType through child handles
+	Digester  func() atree.DigesterBuilder // one builder per map: the builder carries the map's seed
+	KeySpace  int
 }
 
 type World struct {
